@@ -15,10 +15,12 @@ func NewEnv() *Env {
 	return &Env{nil, map[string]*Type{}, map[string]interface{}{}}
 }
 
+// Inherit returns an environment with e's bindings whose lookups fall back to
+// parent. e itself is not modified, so the same environment can be passed to any
+// number of compilations (it used to be chained in place and was unusable afterwards)
 func (e *Env) Inherit(parent *Env) *Env {
 	util.Assert(e.parent == nil, "env.parent != nil")
-	e.parent = parent
-	return e
+	return &Env{parent, e.ctx, e.fnTbl}
 }
 
 func (e *Env) Derive() *Env {
